@@ -10,7 +10,7 @@ def judge_bytes(session, r):
     line, ref, exp_results = session
     if r["results"] is None:
         return [("bytes:crash", {"implementation": (r["raw"] or "")[:300]})]
-    toks = [t for t in line.split()[1:] if not t.startswith(("FP:", "BP:", "X:", "D"))]
+    toks = [t for t in line.split()[1:] if not t.startswith(("FP:", "BP:", "NM:", "X:", "D"))]
     # results align with the tokens that produce a result (Q A M W R AB SA C)
     got = r["results"]
     if len(toks) != len(got):
